@@ -135,4 +135,7 @@ theorem firstIdx_unique [DecidableEq β] {l : List β} (hn : l.Nodup) {i : Nat} 
   have hv := firstIdx_getElem hlt
   exact (List.getElem_inj hn).mp hv
 
+theorem label_lt_eq : (Label.lt) = (fun a b => !(Label.le b a)) := by
+  funext a b; rfl
+
 end DimModel
